@@ -8,12 +8,15 @@ package main
 
 //@ func cmd/plenctag.plencValue
 //@   safety C20
+//@   assigns[C20] H+ B+
 
 //@ func cmd/plenctag.extractTags
 //@   safety C20
+//@   assigns[C20] H+ B+
 
 //@ func cmd/plenctag.*config.isExcluded
 //@   safety C20
+//@   assigns[C20] nothing
 
 //@ # the per-struct rewriting step (the function literal handed to ast.Inspect)
 //@ func cmd/plenctag.*config.rewrite$2
@@ -27,3 +30,15 @@ package main
 //@   loop 2 decreases rangelen - rangeindex
 //@   # each new index is strictly greater than the pass 1 maximum and than every index handed out before it
 //@   atcall strconv.Itoa [C20] arg0 == head_maxPlenc + 1 && arg0 > entry_maxPlenc
+//@   # one new index is handed to one field: a declaration with several names (X, Y int) carries a single tag
+//@   atcall strconv.Itoa [C20] len(f.Names) <= 1
+//@   # a field that already has a plenc tag is left as it is: the tag set is only modified when Get("plenc") failed
+//@   atcall github.com/fatih/structtag.*Tags.Set [C20] @github.com/fatih/structtag.*Tags.Get(arg0, "plenc").r1 != nil
+//@   # unexported fields are left alone when private fields are excluded
+//@   atcall github.com/fatih/structtag.*Tags.Set [C20] athead(c.excludePrivate ==> !@unicode.IsLower(@unicode/utf8.DecodeRuneInString(@cmd/plenctag.fieldName(f)).r0))
+
+//@ func cmd/plenctag.fieldName
+//@   safety C20
+//@   pure H
+//@   assigns[C20] nothing
+//@   loop 1 invariant true
